@@ -56,6 +56,9 @@ pub struct FesProgram {
     pub ops: Vec<FesOp>,
     /// drain the queue at the end; otherwise it is dropped with whatever is pending
     pub drain: bool,
+    /// fault: the destructor of the k-th pending payload panics (once) when the queue is dropped (payload "ptok" only)
+    #[serde(default)]
+    pub drop_panic: Option<u32>,
 }
 
 // ---------------------------------------------------------------- payloads
@@ -294,6 +297,46 @@ impl Payload for Zst {
     }
 }
 
+thread_local! {
+    static PANIC_ON: RefCell<Option<u64>> = const { RefCell::new(None) };
+}
+
+/// A payload whose destructor can be told to panic once (fault: error in Drop).
+pub struct PTok {
+    id: u64,
+    ck: u64,
+}
+impl Drop for PTok {
+    fn drop(&mut self) {
+        note_drop(self.id);
+        let fire = PANIC_ON.with(|p| {
+            let mut p = p.borrow_mut();
+            if *p == Some(self.id) {
+                *p = None;
+                true
+            } else {
+                false
+            }
+        });
+        if fire {
+            panic!("injected: payload destructor panics");
+        }
+    }
+}
+impl Payload for PTok {
+    const ID_BITS: u32 = 64;
+    const COUNTS_DROPS: bool = true;
+    fn make(id: u64) -> Self {
+        PTok { id, ck: ck(id) }
+    }
+    fn key(&self) -> u64 {
+        self.id
+    }
+    fn intact(&self) -> bool {
+        self.ck == ck(self.id)
+    }
+}
+
 pub const PAYLOADS: &[&str] = &["u64", "u8", "tok16", "a16", "b100", "k2", "str", "box", "zst"];
 
 // ---------------------------------------------------------------- shadow allocation map
@@ -371,6 +414,10 @@ fn shadow_observer(ev: VerifAllocEvent) {
                 s.live.insert(addr, span);
             }
             VerifAllocEvent::Deallocated { addr, size } => {
+                let inside = s.pages.range(..=addr).next_back().map(|(&pa, &pl)| addr >= pa && addr + size <= pa + pl).unwrap_or(false);
+                if !inside {
+                    err("dealloc-outside-page", format!("deallocation at {addr:#x}+{size} touches memory that is not (or no longer) an owned page"));
+                }
                 match s.live.remove(&addr) {
                     Some(l) => {
                         if size > l {
@@ -446,6 +493,7 @@ pub fn execute(prog: &FesProgram, prop: &str) -> RunInfo {
         "str" => exec_typed::<Str>(prog, prop),
         "box" => exec_typed::<Bx>(prog, prop),
         "zst" => exec_typed::<Zst>(prog, prop),
+        "ptok" => exec_typed::<PTok>(prog, prop),
         _ => exec_typed::<u64>(prog, prop),
     }
 }
@@ -837,12 +885,31 @@ fn run_ops<P: Payload>(prog: &FesProgram, prop: &str, n: usize, t: u64, page: us
     info.trace_hash = th.0;
     let n_entries = entries.len();
     let states: Vec<St> = entries.iter().map(|e| e.st).collect();
+    let mut destructor_panicked = false;
+    if let Some(k) = prog.drop_panic {
+        let pend: Vec<usize> = entries.iter().enumerate().filter(|(_, e)| e.st == St::Pending).map(|(i, _)| i).collect();
+        if !pend.is_empty() && prog.payload == "ptok" {
+            let victim = pend[k as usize % pend.len()];
+            PANIC_ON.with(|p| *p.borrow_mut() = Some(victim as u64));
+            info.probe("destructor_panic_injected");
+        }
+    }
     drop(entries);
-    drop(q);
+    let dr = std::panic::catch_unwind(std::panic::AssertUnwindSafe(move || drop(q)));
+    if dr.is_err() {
+        crate::clear_panic();
+        destructor_panicked = true;
+        info.probe("destructor_panic_during_queue_drop");
+    }
+    PANIC_ON.with(|p| *p.borrow_mut() = None);
     if want_c15 && P::COUNTS_DROPS {
         if P::ID_BITS == 64 {
             for id in 0..n_entries {
                 let d = drops_of(id as u64);
+                if d == 0 && destructor_panicked {
+                    // a panicking destructor may cost the payloads behind it (never corrupt or double-drop them)
+                    continue;
+                }
                 if d == 0 {
                     info.violate(Violation::new("C15", "payload-leak", format!("payload {id} ({:?}) was never dropped although the queue is gone", states[id])));
                     break;
@@ -974,5 +1041,13 @@ pub fn generate(prop: &str, rng: &mut Rng, tier: Tier) -> FesProgram {
     }
     let drain = if prop == "C15" { rng.chance(1, 2) } else { rng.chance(9, 10) };
     let inv_every = if n <= 64 { 1 } else { 1 + (n as u32 / 64) };
-    FesProgram { n, t_ns, page_size, payload: payload.to_string(), inv_every, ops, drain }
+    let mut payload = payload.to_string();
+    let mut drop_panic = None;
+    let mut drain = drain;
+    if prop == "C15" && rng.chance(1, 8) {
+        payload = "ptok".to_string();
+        drop_panic = Some(rng.below(1 << 16) as u32);
+        drain = false;
+    }
+    FesProgram { n, t_ns, page_size, payload, inv_every, ops, drain, drop_panic }
 }
